@@ -122,6 +122,38 @@ def gen_big_source(rng):
     return ''.join(parts).encode('latin-1')
 
 
+def gen_valid_source(rng):
+    """A parseable program (ASCII) rich in multi-line tokens, lone CRs
+    inside comments, CRLF line ends and escapes."""
+    out = []
+    n = rng.choice([1, 2, 4, 8, 14])
+    for k in range(n):
+        r = rng.random()
+        if r < 0.2:
+            out.append('mk_%d=%d' % (k, k))
+        elif r < 0.3:
+            out.append('local s_%d="a\\nb\\"c\\065"' % k)
+        elif r < 0.42:
+            out.append('s_%d=[[long %d\nstring\n]] mk_%d=%d' % (k, k, k, k))
+        elif r < 0.5:
+            out.append('s_%d=[==[x]]y\nz]==]' % k)
+        elif r < 0.62:
+            out.append('--[[ block %d\ncomment\n]] mk_%d=%d' % (k, k, k))
+        elif r < 0.7:
+            out.append('-- line comment\rwith a lone cr %d' % k)
+        elif r < 0.76:
+            out.append('// slash comment\rcr %d' % k)
+        elif r < 0.82:
+            out.append('s_%d="continued\\\nline %d"' % (k, k))
+        elif r < 0.9:
+            out.append('if mk_0 then mk_%d=%d end' % (k, k))
+        else:
+            out.append('function f_%d(a)\n local z=%d -- c\n return a+z\nend'
+                       % (k, k))
+        out.append(rng.choice(['\n', '\n', '\n\n', '\r\n', ' \n']))
+    return ''.join(out).encode('ascii')
+
+
 def line_ends(src):
     return [i + 1 for i, c in enumerate(src) if c == 10 and i + 1 < len(src)]
 
@@ -203,6 +235,14 @@ def generate(rng, prop, tier, index):
         return {'engine': NAME, 'mode': 'hashseed',
                 'src_seed': rng.randrange(10**9), 'count': 40,
                 'hashseeds': ['1', '2', '3', str(rng.randrange(4, 10**6))]}
+    if index % 10 == 5:
+        return {'engine': NAME, 'mode': 'file',
+                'src': core.enc_bytes(gen_valid_source(rng)
+                                      if rng.random() < 0.8
+                                      else gen_source(rng)
+                                      .decode('latin-1').encode(
+                                          'ascii', 'replace')),
+                'routes': ['p8file', 'p8include', 'cli-listtokens']}
     if index % 25 == 7:
         sc['src'] = {'$corpus': index // 25}
     elif index % 10 == 3:
@@ -252,9 +292,150 @@ def _src(sc):
     return core.dec_bytes(s)
 
 
+def execute_file(sc):
+    """The same code reaches the lexer through the cart loaders: as the code
+    of a .p8 file (per-line chunks), as the code of a cart #included by a
+    .p8 (echo-writer lines: multi-line tokens inside one chunk), and as
+    .p8 vs .p8.png on the command line.  The token list must be the one the
+    single-chunk lexing gives."""
+    from picosim import refcodec, world
+    from pico8 import tool
+    from pico8.game import file as pfile
+    res = core.new_result()
+    ev = res['events']
+    src = _src(sc)
+    if not src.endswith(b'\n'):
+        src += b'\n'
+    base = lex([src], 'lua')
+    core.bump(res['ops'], 'lex-through-loader')
+    outcomes = []
+    with world.World() as w:
+        cart = refcodec.make_cart(version=33, code=src)
+        w.put('a/code.p8', refcodec.encode_p8(cart))
+        w.put('a/main.p8', refcodec.encode_p8(refcodec.make_cart(
+            version=33, code=b'#include code.p8\n')))
+
+        def load(rel):
+            try:
+                g = pfile.from_file(w.p(rel))
+                return lex_tokens(g.lua.tokens)
+            except Exception as e:
+                from pico8.lua import lexer
+                if isinstance(e, lexer.LexerError):
+                    return ('error', type(e).__name__,
+                            getattr(e, 'lineno', None),
+                            getattr(e, 'charno', None))
+                return ('error', type(e).__name__, str(e)[:80], None)
+        for route in sc.get('routes', []):
+            if route == 'p8file':
+                got = load('a/code.p8')
+            elif route == 'p8include':
+                got = load('a/main.p8')
+                # an included cart's code is re-serialised by the echo writer
+                # before it is spliced (which may respell string escapes:
+                # that is C06's business); the reference for this route is
+                # therefore that text lexed as one chunk
+                try:
+                    from pico8.lua import lua as _lua
+                    echoed = b''.join(_lua.Lua.from_lines(
+                        [src], version=33).to_lines())
+                    ref = lex([echoed], 'lua')
+                except Exception:
+                    ref = base
+                if got != ref:
+                    core.bump(res['faults'], 'CHUNK')
+                    core.violation(
+                        res, 'C07', 'C07:chunk-dependent-tokens',
+                        'C07|chunk-dependent|tokens|via p8include',
+                        'source %r included from a cart: tokens differ '
+                        'from the same (echoed) text lexed as one chunk: '
+                        '%s vs %s' % (src[:300], str(got)[:300],
+                                      str(ref)[:300]))
+                    break
+                got = base
+            elif route == 'cli-listtokens':
+                if b'\r' in src:
+                    continue       # the .p8.png reader rewrites CR itself
+                w.put('a/code.p8.png', refcodec.encode_p8png(cart))
+                outs = []
+                for f in ('a/code.p8', 'a/code.p8.png'):
+                    w.out.seek(0)
+                    w.out.truncate(0)
+                    try:
+                        rc = tool.main(['listtokens', w.p(f)])
+                    except BaseException as e:
+                        rc = 'raised ' + type(e).__name__
+                    outs.append((rc, w.out.getvalue().rstrip()))
+                core.bump(res['faults'], 'CHUNK')
+                if outs[0] != outs[1]:
+                    core.violation(
+                        res, 'C07', 'C07:chunk-dependent-listtokens',
+                        'C07|listtokens differs between .p8 and .p8.png',
+                        'source %r: `p8tool listtokens` gives (%r, %r...) '
+                        'for the .p8 and (%r, %r...) for the .p8.png with the '
+                        'same code' % (src[:200], outs[0][0], outs[0][1][:150],
+                                       outs[1][0], outs[1][1][:150]))
+                    break
+                outcomes.append(route + ':same')
+                continue
+            core.bump(res['faults'], 'CHUNK')
+            if got != base:
+                if base[0] == 'ok' and got[0] == 'ok':
+                    i = next((j for j in range(min(len(base[1]),
+                                                   len(got[1])))
+                              if base[1][j] != got[1][j]),
+                             min(len(base[1]), len(got[1])))
+                    detail = 'token %d: one chunk %s, through %s %s' % (
+                        i, base[1][i] if i < len(base[1]) else '(none)',
+                        route, got[1][i] if i < len(got[1]) else '(none)')
+                    field = 'tokens'
+                    if i < len(base[1]) and i < len(got[1]) and \
+                            base[1][i][:4] == got[1][i][:4]:
+                        field = 'position'
+                else:
+                    detail = 'one chunk: %s; through %s: %s' % (
+                        str(base)[:200], route, str(got)[:200])
+                    field = 'error'
+                core.violation(
+                    res, 'C07', 'C07:chunk-dependent-' + field,
+                    'C07|chunk-dependent|%s|via %s' % (field, route),
+                    'source %r loaded through %s: %s' % (src[:300], route,
+                                                         detail))
+                break
+            outcomes.append(route + ':same')
+    core.bump(res['probes'], 'lexed-through-cart-loaders')
+    if b'\r' in src.replace(b'\r\n', b''):
+        core.bump(res['probes'], 'lone-cr-in-source')
+    res['states'].append('file|%s|%s' % (
+        base[0], 'violation' if res['violations'] else ','.join(outcomes)))
+    res['nontrivial'] = bool(outcomes) or bool(res['violations'])
+    ev.append(('file', core.sha(src)[:16], base[0], outcomes))
+    return res
+
+
+def lex_tokens(toks):
+    out = []
+    for t in toks:
+        try:
+            val = t.value
+        except Exception as e:
+            val = 'value-raised:' + type(e).__name__
+        try:
+            code = t.code
+        except Exception as e:
+            code = 'code-raised:' + type(e).__name__
+        out.append((type(t).__name__, bytes(t._data).hex()
+                    if isinstance(t._data, (bytes, bytearray))
+                    else repr(t._data),
+                    repr(val), repr(code), t._lineno, t._charno))
+    return ('ok', out)
+
+
 def execute(sc):
     if sc['mode'] == 'hashseed':
         return execute_hashseed(sc)
+    if sc['mode'] == 'file':
+        return execute_file(sc)
     res = core.new_result()
     ev = res['events']
     src = _src(sc)
@@ -422,6 +603,20 @@ def plan(prop, tier):
 
 
 def shrink(sc):
+    if sc['mode'] == 'file':
+        src = _src(sc)
+        for r in sc['routes']:
+            if len(sc['routes']) > 1:
+                yield dict(sc, routes=[r])
+        lines = src.split(b'\n')
+        for cand in core.ddmin_list(lines):
+            yield dict(sc, src=core.enc_bytes(b'\n'.join(cand)))
+        for i, ln in enumerate(lines):
+            words = ln.split(b' ')
+            for cand in core.ddmin_list(words):
+                yield dict(sc, src=core.enc_bytes(b'\n'.join(
+                    lines[:i] + [b' '.join(cand)] + lines[i + 1:])))
+        return
     if sc['mode'] != 'chunk':
         if sc['count'] > 1:
             yield dict(sc, count=max(1, sc['count'] // 2))
